@@ -8,28 +8,25 @@ use samlang_heap::PStr;
 
 fn evaluate_bin_op(operator: BinaryOperator, v1: i32, v2: i32) -> Option<i32> {
   match operator {
-    BinaryOperator::MUL => Some(v1 * v2),
+    BinaryOperator::MUL => Some(v1.wrapping_mul(v2)),
     BinaryOperator::DIV => {
-      if v2 == 0 {
-        None
-      } else {
-        Some(v1 / v2)
-      }
+      // None for division by zero and for MIN / -1: both trap at run time.
+      v1.checked_div(v2)
     }
     BinaryOperator::MOD => {
       if v2 == 0 {
         None
       } else {
-        Some(v1 % v2)
+        Some(v1.wrapping_rem(v2))
       }
     }
-    BinaryOperator::PLUS => Some(v1 + v2),
-    BinaryOperator::MINUS => Some(v1 - v2),
+    BinaryOperator::PLUS => Some(v1.wrapping_add(v2)),
+    BinaryOperator::MINUS => Some(v1.wrapping_sub(v2)),
     BinaryOperator::LAND => Some(v1 & v2),
     BinaryOperator::LOR => Some(v1 | v2),
-    BinaryOperator::SHL => Some(v1 << v2),
+    BinaryOperator::SHL => Some(v1.wrapping_shl(v2 as u32)),
     BinaryOperator::SHR => {
-      Some(i32::from_be_bytes(((u32::from_be_bytes(v1.to_be_bytes())) >> v2).to_be_bytes()))
+      Some((v1 as u32).wrapping_shr(v2 as u32) as i32)
     }
     BinaryOperator::XOR => Some(v1 ^ v2),
     BinaryOperator::LT => Some((v1 < v2) as i32),
@@ -59,7 +56,7 @@ fn merge_binary_expression(
         Some(BinaryExpression {
           operator: BinaryOperator::PLUS,
           e1: inner.e1,
-          e2: inner.e2 + outer_const,
+          e2: inner.e2.wrapping_add(outer_const),
         })
       } else {
         None
@@ -70,7 +67,7 @@ fn merge_binary_expression(
         Some(BinaryExpression {
           operator: BinaryOperator::MUL,
           e1: inner.e1,
-          e2: inner.e2 * outer_const,
+          e2: inner.e2.wrapping_mul(outer_const),
         })
       } else {
         None
